@@ -67,7 +67,7 @@ use std::cmp::Ordering;
 use std::collections::HashMap;
 use std::fs::File;
 use std::io::Write;
-use std::sync::{Arc, Mutex};
+use std::sync::{Arc, Mutex, PoisonError};
 use std::time::{Duration, Instant};
 
 /// Trait for custom metrics.
@@ -134,7 +134,7 @@ impl MetricsCollector {
     pub fn register(&mut self, metric: Box<dyn Metric>) {
         #[cfg(feature = "verif-hooks")]
         crate::verif_hooks::yield_point("metrics:register:0");
-        let mut inner = self.inner.lock().unwrap();
+        let mut inner = self.inner.lock().unwrap_or_else(PoisonError::into_inner);
         inner.metrics.insert(metric.name().to_string(), metric);
     }
 
@@ -153,7 +153,7 @@ impl MetricsCollector {
     pub fn record_start(&self) {
         #[cfg(feature = "verif-hooks")]
         crate::verif_hooks::yield_point("metrics:record_start:0");
-        let mut inner = self.inner.lock().unwrap();
+        let mut inner = self.inner.lock().unwrap_or_else(PoisonError::into_inner);
         inner.start_time = Some(Instant::now());
     }
 
@@ -165,7 +165,7 @@ impl MetricsCollector {
     pub fn record_end(&self) {
         #[cfg(feature = "verif-hooks")]
         crate::verif_hooks::yield_point("metrics:record_end:0");
-        let mut inner = self.inner.lock().unwrap();
+        let mut inner = self.inner.lock().unwrap_or_else(PoisonError::into_inner);
         inner.end_time = Some(Instant::now());
     }
 
@@ -178,7 +178,7 @@ impl MetricsCollector {
     pub fn elapsed(&self) -> Option<Duration> {
         #[cfg(feature = "verif-hooks")]
         crate::verif_hooks::yield_point("metrics:elapsed:0");
-        let inner = self.inner.lock().unwrap();
+        let inner = self.inner.lock().unwrap_or_else(PoisonError::into_inner);
         match (inner.start_time, inner.end_time) {
             (Some(start), Some(end)) => Some(end.duration_since(start)),
             _ => None,
@@ -195,7 +195,7 @@ impl MetricsCollector {
     pub fn increment_counter(&self, name: &str, value: u64) {
         #[cfg(feature = "verif-hooks")]
         crate::verif_hooks::yield_point("metrics:increment_counter:0");
-        let mut inner = self.inner.lock().unwrap();
+        let mut inner = self.inner.lock().unwrap_or_else(PoisonError::into_inner);
         if let Some(metric) = inner.metrics.get_mut(name) {
             // Try to downcast to CounterMetric and increment
             if let Some(counter) = metric.as_any().downcast_ref::<CounterMetric>() {
@@ -231,7 +231,7 @@ impl MetricsCollector {
     pub fn set_counter(&self, name: &str, value: u64) {
         #[cfg(feature = "verif-hooks")]
         crate::verif_hooks::yield_point("metrics:set_counter:0");
-        let mut inner = self.inner.lock().unwrap();
+        let mut inner = self.inner.lock().unwrap_or_else(PoisonError::into_inner);
         inner.metrics.insert(
             name.to_string(),
             Box::new(CounterMetric {
@@ -250,7 +250,7 @@ impl MetricsCollector {
     pub fn to_json(&self) -> Value {
         #[cfg(feature = "verif-hooks")]
         crate::verif_hooks::yield_point("metrics:to_json:0");
-        let inner = self.inner.lock().unwrap();
+        let inner = self.inner.lock().unwrap_or_else(PoisonError::into_inner);
         let mut metrics_json = Map::new();
 
         for (name, metric) in &inner.metrics {
@@ -287,7 +287,7 @@ impl MetricsCollector {
 
         #[cfg(feature = "verif-hooks")]
         crate::verif_hooks::yield_point("metrics:print:0");
-        let inner = self.inner.lock().unwrap();
+        let inner = self.inner.lock().unwrap_or_else(PoisonError::into_inner);
 
         // Print execution time first if available
         if let (Some(start), Some(end)) = (inner.start_time, inner.end_time) {
@@ -336,7 +336,7 @@ impl MetricsCollector {
     pub fn snapshot(&self) -> HashMap<String, Value> {
         #[cfg(feature = "verif-hooks")]
         crate::verif_hooks::yield_point("metrics:snapshot:0");
-        let inner = self.inner.lock().unwrap();
+        let inner = self.inner.lock().unwrap_or_else(PoisonError::into_inner);
         inner
             .metrics
             .iter()
